@@ -31,6 +31,9 @@ func (e *Encoder) call(in *ssa.Call, st *State, pc string) {
 		name = cm.Method.Name()
 	case cm.StaticCallee() != nil:
 		name = cm.StaticCallee().Name()
+		if o := cm.StaticCallee().Origin(); o != nil {
+			name = o.Name() // an instantiation Clone[[]byte] is named after the generic function, as at sites
+		}
 	}
 	if _, lit := cm.Value.(*ssa.MakeClosure); lit || name == "" {
 		// a call through a local variable that holds a function literal: named after the variable (`end := func...;
@@ -72,6 +75,7 @@ func (e *Encoder) nameValue(base string, v Val, pc string) {
 		e.reachedPC = map[string]string{}
 	}
 	if v.Tuple != nil {
+		e.reachedPC[n] = pc // reached($name) also works for a call with several results
 		for i, t := range v.Tuple {
 			e.params[fmt.Sprintf("%s_%d", n, i)] = t
 			e.reachedPC[fmt.Sprintf("%s_%d", n, i)] = pc
